@@ -793,8 +793,9 @@ fn sweep(maxlen: usize, full: bool) {
             }
             // adjacent pairs: every value followed by a boundary value, at every position of buffers that
             // end in the word-at-a-time tail (16), straddle one SIMD block (33, 40) or two (70)
-            let second: [u8; 26] = [0x00, 0x01, 0x08, 0x09, 0x0a, 0x0b, 0x0c, 0x0d, 0x1f, 0x20, 0x21, 0x22, 0x3a, 0x40,
-                                    0x5b, 0x60, 0x7b, 0x7e, 0x7f, 0x80, 0x81, 0x9f, 0xa0, 0xc0, 0xfe, 0xff];
+            let second: [u8; 44] = [0x00, 0x01, 0x08, 0x09, 0x0a, 0x0b, 0x0c, 0x0d, 0x1f, 0x20, 0x21, 0x22, 0x28, 0x29, 0x2c,
+                                    0x2d, 0x2e, 0x2f, 0x30, 0x39, 0x3a, 0x3b, 0x3c, 0x3d, 0x3e, 0x3f, 0x40, 0x41, 0x5a, 0x5b,
+                                    0x5c, 0x5d, 0x60, 0x61, 0x7a, 0x7b, 0x7d, 0x7e, 0x7f, 0x80, 0x9f, 0xa0, 0xfe, 0xff];
             for len in [16usize, 33, 40, 70] {
                 if len > maxlen + 8 {
                     continue;
